@@ -1,4 +1,5 @@
 import RsslVerif.Model.GenHlsl
+import RsslVerif.Spec.SemIeee
 import RsslVerif.Spec.SemWT
 import RsslVerif.Driver.Util
 /-!
@@ -300,18 +301,19 @@ def fcode : MBin → Nat
   | .add => 1 | .sub => 2 | .mul => 3 | .div => 4 | .mod => 5 | _ => 0
 
 def concretePrim : Prim where
+  -- arithmetic: a hash-like function that satisfies no algebraic law (not commutative, no identities, no inverses)
   fbin m x y := (x.rotateLeft 5 ^^^ (y * 0x9E3779B1#32)) + BitVec.ofNat 32 (fcode m)
-  fcmp m x y := match m with
-    | .lt => x.slt y | .le => x.sle y | .gt => y.slt x | .ge => y.sle x
-    | .eq => x == y | .ne => x != y | _ => false
+  -- comparisons: IEEE-754 (NaN is unordered: `¬(a < b)` is not `a >= b`; `+0 == -0`); see Model/Ieee.lean
+  fcmp := ieeeCmp
   fneg x := x ^^^ 0x80000000#32
   fstep inc x := if inc then x + 0x00800000#32 else x - 0x00800000#32
   idiv signed x y := if y == 0 then 0xFFFFFFFF#32 else if signed then x.sdiv y else x / y
   imod signed x y := if y == 0 then x else if signed then x.srem y else x % y
-  i2f x := (x * 3#32) ^^^ 0x4B000000#32
-  u2f x := (x * 5#32) ^^^ 0x4F000000#32
-  f2i x := (x ^^^ 0x4B000000#32) * 0xAAAAAAAB#32
-  f2u x := (x ^^^ 0x4F000000#32) * 0xCCCCCCCD#32
+  -- conversions: the real ones (round to nearest even; toward zero, NaN ↦ 0, saturating)
+  i2f x := Ieee.i2f x
+  u2f x := Ieee.u2f x
+  f2i x := Ieee.f2i x
+  f2u x := Ieee.f2u x
   f2b x := (x &&& 0x7FFFFFFF#32) != 0
   d2f d := d.truncate 32 ^^^ (d >>> 32).truncate 32
   intr i t vals :=
@@ -485,8 +487,32 @@ def handleFn (vectors ctx ir : String) : String :=
           "ast " ++ showFunc afn ++ " ;; run " ++ " | ".intercalate outs
   | _, _, _ => "bad-request"
 
+/-- `C01.prim`: the concrete primitive interpretation itself, compared with the harness's (sx.rs) on edge values —
+`cmp a b,b,…` ↦ per `b` the six comparisons `< <= > >= == !=` as bits; `conv x,x,…` ↦ per `x` the five conversions -/
+def handlePrim (kind : String) (rest : List String) : String :=
+  let bit (b : Bool) : String := if b then "1" else "0"
+  let vals (t : String) : Option (List (BitVec 32)) :=
+    sequenceOpt ((t.splitOn ",").map fun w => (hexVal? w).map (BitVec.ofNat 32))
+  match kind, rest with
+  | "cmp", [a, bs] =>
+    match hexVal? a, vals bs with
+    | some a, some bs =>
+      let a := BitVec.ofNat 32 a
+      " ".intercalate (bs.map fun b =>
+        String.join ([MBin.lt, .le, .gt, .ge, .eq, .ne].map fun m => bit (concretePrim.fcmp m a b)))
+    | _, _ => "bad-request"
+  | "conv", [xs] =>
+    match vals xs with
+    | some xs =>
+      " ".intercalate (xs.map fun x =>
+        hexOf 8 (concretePrim.i2f x).toNat ++ "," ++ hexOf 8 (concretePrim.u2f x).toNat ++ "," ++
+        hexOf 8 (concretePrim.f2i x).toNat ++ "," ++ hexOf 8 (concretePrim.f2u x).toNat ++ "," ++ bit (concretePrim.f2b x))
+    | none => "bad-request"
+  | _, _ => "bad-request"
+
 def handle (op : String) (args : List String) : String :=
   match op, args with
+  | "C01.prim", kind :: rest => handlePrim kind rest
   | "C01.fn", [_src, name, vectors, ctx, ir] => if name == "-" then "skip" else handleFn vectors ctx ir
   | "C01.wt", [_src, _name, _vectors, ctx, ir] =>
     -- do the hypotheses of the theorems hold for this program? (statistics of the correspondence run)
